@@ -154,12 +154,18 @@ func runC06(sc *c06Scenario) *Violation {
 		}
 	})
 	fail := func(format string, a ...interface{}) *Violation {
-		_, dump := goircGoroutines()
+		_, dump, _ := connGoroutines(tc.C)
 		return &Violation{Property: "C06", Msg: fmt.Sprintf(format, a...), Detail: dump}
 	}
 	quiesce := func() bool {
-		return waitCond(stallTimeout(), func() bool { n, _ := goircGoroutines(); return n == 0 })
+		return waitCond(stallTimeout(), func() bool { n, _, _ := connGoroutines(tc.C); return n == 0 })
 	}
+	defer func() {
+		for _, c := range tc.S.Conns() {
+			c.EOFNow()
+		}
+		go tc.C.Close()
+	}()
 
 	// ---- negative scenarios ----
 	switch sc.Negative {
@@ -194,7 +200,7 @@ func runC06(sc *c06Scenario) *Violation {
 		if err := tc.C.Close(); err != nil {
 			return fail("Close after failed Connect returned %v", err)
 		}
-		if n, _ := goircGoroutines(); n != 0 {
+		if n, _, _ := connGoroutines(tc.C); n != 0 {
 			return fail("failed Connect (%s) left %d goirc goroutines behind", sc.Negative, n)
 		}
 		if cnt.disconnected.Load() != 0 {
